@@ -149,10 +149,22 @@ def TE(i):
     return ('TEvent', 'e%d' % i, [i])
 
 
+def TB(i, n=1):
+    """Event b<i> with n bytes arguments (n attachment frames) and one int argument."""
+    return ('TBinHead', 'b%d' % i, [bytes([i, k]) for k in range(n)] + [i])
+
+
+TA = ('TBinAtt',)
+
+
 def top_term(op):
     k = op[0]
     if k == 'TEvent':
         return '(tev "%s" %d)' % (op[1], op[2][0])
+    if k == 'TBinHead':
+        return '(TBinHead %s %s)' % (coqio.pv(op[1]), clist([coqio.pv(x) for x in op[2]]))
+    if k == 'TBinAtt':
+        return 'TBinAtt'
     if k == 'TAttempt':
         return '(TAttempt %s)' % {'fail': 'AFail', 'refused': 'ARefused', 'ok': 'AOk'}[op[1]]
     return {'TLose': 'TLose', 'TClose': 'TClose', 'TDisc': 'TDisc'}[k]
@@ -180,20 +192,32 @@ def gen_history(rng, n):
     reconn = rng.random() < 0.85
     attempts = rng.choice([0, 0, 0, 2, 3])
     T, phase, failed, nev, sent = [], 'up', 0, 0, 0
+    missing = 0                 # attachment frames of a binary event still to come on this connection
     for _ in range(n):
         x = rng.random()
-        if phase == 'up':
-            if x < 0.40:
-                op = TE(nev)
+        if phase == 'up' and missing and x < 0.6:
+            op = TA
+            missing -= 1
+            sent += 0 if missing else 1
+        elif phase == 'up':
+            if x < 0.28 or (missing and x < 0.64):
+                op = TE(nev)                            # (skipped while a binary event is incomplete)
                 nev += 1
-                sent += 1
+                sent += 0 if missing else 1
+            elif x < 0.40:
+                k = rng.choice([1, 1, 2])
+                op = TB(nev, k)
+                nev += 1
+                missing = missing or k
             elif x < 0.75:
                 op = TL
-                phase, failed = ('down', 0) if reconn else ('over', 0)
+                phase, failed, missing = ('down', 0, 0) if reconn else ('over', 0, 0)
             elif x < 0.82:
-                op, phase = TC, 'over'
+                op, phase, missing = TC, 'over', 0
             elif x < 0.89:
-                op, phase = TD, 'over'
+                op = TD
+                if not missing:
+                    phase = 'over'
             else:
                 op = rng.choice([AF, AR, AK])           # no reconnect task is waiting: nothing happens
         elif phase == 'down':
@@ -205,7 +229,7 @@ def gen_history(rng, n):
                 if attempts and failed >= attempts:
                     phase = 'over'
             else:
-                op = rng.choice([TE(nev), TL, TC, TD])  # the transport is down: nothing happens
+                op = rng.choice([TE(nev), TL, TC, TD, TA])  # the transport is down: nothing happens
                 if op[0] == 'TEvent':
                     nev += 1
         else:
@@ -224,6 +248,10 @@ def transport_scenarios(rng, thorough):
         ('t reconnect after failures', (True, 0), [TE(0), TL, AF, AR, AK, TE(1)], [R1, R1, R1], False),
         ('t failures while waiting', (True, 0), [TL, AF, AR, AF, AK, TE(0)], [R0], True),
         ('t event then outage', (True, 0), [TE(0), TL, AF], [R0], True),
+        # binary events: header frame + attachment frames, the transport can fail between them
+        ('t binary lost between frames', (True, 0), [TB(0), TL, AK, TE(1)], [R1, R1], False),
+        ('t binary complete', (True, 0), [TB(0), TA, TE(1), TL, AF, AK, TB(2, 2), TA, TA], [R1, R1, R1], False),
+        ('t binary half then outage', (True, 2), [TB(0, 2), TA, TL, AF, AK, TA, TE(1), TB(2), TC, TA], [R0, R1], False),
         ('t giveup', (True, 2), [TE(0), TL, AF, AR], [R1, R0], False),
         ('t giveup1 refused', (True, 1), [TL, AR, AK, TE(0)], [R0], True),
         ('t close', (True, 0), [TE(0), TC], [R0, R0], False),
